@@ -178,6 +178,48 @@ CHECKS["C09"] = dict(
               "validation; attack traces; independent concrete-bytes monitor; concurrent batches under -race",
 )
 
+CHECKS["C11"] = dict(
+    category="model_checking",
+    text="Registry.tla holds the registration rules declaratively (Expected = fold of Rule over the event sequence, "
+         "independent of blocks) next to the mechanism of eth/eventhandler (one transaction per block, reads that "
+         "see / do not see the transaction's own writes as the code does, nonce bumped before validation, in-memory "
+         "share map and own-operator record, key manager outside the transaction). TLC exhausts every sequence of "
+         "<= 3 (quick) / 4 (thorough) events from a 35-class alphabet (every validity class of ValidatorAdded, "
+         "foreign-owner remove/exit, duplicate OperatorAdded ids, cluster and fee events) under every block batching "
+         "and a restart, checking db = Expected(prefix), keys = Expected, mem = db, last = block. A seeded cover of the "
+         "dumped state graph, simulated behaviours over the full 77-class alphabet, and the counterexamples of 17 "
+         "named weakenings (incl. the pre-55553ea0e SaveOperatorData) are replayed on the real EventHandler with real "
+         "BLS owner signatures and RSA share keys in ABI-packed logs; monitors compare the real database with the "
+         "rules, memory with database, a fresh node with the running one, and the same events batched one per block "
+         "(real vs real). Random chains recorded from the real handler are validated by TLC (RegistryTrace.tla).",
+    design_ref="DESIGN.md section 5 C11",
+    note="Rules oracle = the spec's Expected evaluated by TLC; exhaustive only for the stated constants (2 owners, 2 "
+         "validators, operator ids 1..5); ABI-unparseable logs are outside the alphabet; badger atomicity trusted; "
+         "beacon metadata supplied by the harness.",
+    technique="TLA+ rules-vs-mechanism spec + TLC exhaustive check over all batchings; state-graph cover, simulation "
+              "and attack traces replayed on the real event handler; TLC trace validation of recorded chains",
+)
+CHECKS["C12"] = dict(
+    category="model_checking",
+    text="Crash sub-spec of Registry.tla (Grain = op): one step per storage write / operator-lookup read / key-manager "
+         "call / decided-store cleanup / marker write / commit, Crash and Fail between any two, restart on the "
+         "surviving database, redelivery of the interrupted block, redelivery of a committed block. TLC exhausts "
+         "<= 3 events x 1 fault (quick) / <= 4 events x 2 faults (thorough, 7.9M states) checking that at every clean "
+         "boundary registry, nonces and key store equal the uninterrupted run (the rules' fold). On the real handler: "
+         "TLC's crash behaviours are replayed with the fault at the corresponding operation; every operation index "
+         "of a clean run of each generated chain (incl. the key manager's and decided store's inner writes) is used "
+         "as a crash point and as an error point behind counting basedb.Database/Txn/KeyManager wrappers, plus "
+         "sampled double faults; a new node is booted on the surviving badger as cli/operator/node.go does, resumes "
+         "from last+1, and its final db / memory / wallet accounts / slashing-record presence are compared with the "
+         "clean run; the last block is redelivered and must be refused.",
+    design_ref="DESIGN.md section 5 C12",
+    note="Process death = recovered panic inside the wrapped operation; badger atomicity/durability trusted; a failed "
+         "operation is not performed at all; single faults exhaustive per chain, double faults sampled; slashing "
+         "records compared by presence. Two known-finding signatures (orphan wallet account).",
+    technique="TLA+ crash sub-spec + TLC exhaustive check; crash behaviours and attack traces replayed; exhaustive "
+              "per-chain fault enumeration on the real handler with restart on the surviving database",
+)
+
 _QBFT_NOTE = ("N=4 (f=1), one Byzantine operator with its real BLS key; exhaustive only per adversary class and round bound "
               "named in the evidence (macro grain: quorum-at-once delivery of prepares/commits, normalised like "
               "instance.Compact), never for all Byzantine behaviours; the fine grain (one ProcessMsg per step) is "
